@@ -232,9 +232,9 @@ Proofs/ParseCost.vos Proofs/ParseCost.vok Proofs/ParseCost.required_vos: Proofs/
 Model/Expand.vo Model/Expand.glob Model/Expand.v.beautified Model/Expand.required_vo: Model/Expand.v Model/Api.vo
 Model/Expand.vio: Model/Expand.v Model/Api.vio
 Model/Expand.vos Model/Expand.vok Model/Expand.required_vos: Model/Expand.v Model/Api.vos
-Model/CaseLib.vo Model/CaseLib.glob Model/CaseLib.v.beautified Model/CaseLib.required_vo: Model/CaseLib.v Model/Api.vo
-Model/CaseLib.vio: Model/CaseLib.v Model/Api.vio
-Model/CaseLib.vos Model/CaseLib.vok Model/CaseLib.required_vos: Model/CaseLib.v Model/Api.vos
+Model/CaseLib.vo Model/CaseLib.glob Model/CaseLib.v.beautified Model/CaseLib.required_vo: Model/CaseLib.v Model/Api.vo Model/ParseStack.vo
+Model/CaseLib.vio: Model/CaseLib.v Model/Api.vio Model/ParseStack.vio
+Model/CaseLib.vos Model/CaseLib.vok Model/CaseLib.required_vos: Model/CaseLib.v Model/Api.vos Model/ParseStack.vos
 Proofs/ExpandProof.vo Proofs/ExpandProof.glob Proofs/ExpandProof.v.beautified Proofs/ExpandProof.required_vo: Proofs/ExpandProof.v Model/Expand.vo Spec/Eval.vo Proofs/Laws.vo
 Proofs/ExpandProof.vio: Proofs/ExpandProof.v Model/Expand.vio Spec/Eval.vio Proofs/Laws.vio
 Proofs/ExpandProof.vos Proofs/ExpandProof.vok Proofs/ExpandProof.required_vos: Proofs/ExpandProof.v Model/Expand.vos Spec/Eval.vos Proofs/Laws.vos
